@@ -2,7 +2,7 @@
    no effect) for the rendezvous channels (engine rv; model Chan/Rendezvous.v).
    Only statements, `exact`, and Examples. *)
 From Fibre Require Import Common.Base Chan.Rendezvous Proofs.RendezvousBase Proofs.RendezvousWF
-     Proofs.RendezvousProofs.
+     Proofs.RendezvousProofs Proofs.RendezvousAck.
 
 (* conservation, for every configuration (spsc/mpsc/mpmc, shipped or repaired), constructor mode and
    history of API calls, polls and drops *)
@@ -44,6 +44,24 @@ Theorem C01_rv_failed_no_effect : forall c s o s' r e,
   | _ => True
   end.
 Proof. exact rv_failed_no_effect. Qed.
+
+(* Acknowledged sends are delivered -- except finding F-31.  The full statement ("a payload whose
+   send reported success is received or still held for a receiver") is refuted on the faithful model
+   for every configuration; what holds is the same statement with the third alternative, and that
+   alternative arises only from dropping a receive future that had completed and was not polled. *)
+Theorem C01_rv_acked_delivered_refuted_F31 : forall c, ~ rv_acked_delivered_full c.
+Proof. exact rv_acked_delivered_refuted_F31. Qed.
+
+Theorem C01_rv_acked_delivered_except_F31 : forall c a ops s tr v,
+  run c (init a) ops = (s, tr) -> In (EAck v) (evs_of tr) ->
+  In (ERecv v) (evs_of tr) \/ in_dest (fs s) v \/ In (EDropDest v) (evs_of tr).
+Proof. exact rv_acked_delivered_except_F31. Qed.
+
+Theorem C01_rv_F31_only_completed_recv_future : forall c s o s' r e v,
+  WF s -> step c s o = (s', r, e) -> In (EDropDest v) e ->
+  exists f r0, o = DropF f /\ aget f (fs s) = Some r0 /\ f_side r0 = Rx /\ f_cell r0 = Some v
+               /\ f_st r0 = DONE /\ f_reg r0 = true.
+Proof. exact rv_drop_dest_only_completed_recv. Qed.
 
 (* non-vacuity: a handoff to a parked receive future, a parked send taken by try_recv, a cancelled
    send that is not ghost-delivered *)
